@@ -1,4 +1,8 @@
-/- Driver for C10: the same executor model as C02 (`Exec/Driver.lean`); the harness plants errors. -/
+/- Driver for C10: the executor model shared with C02 (`Exec/Driver.lean`) for program cases, and the
+   fine-grained simple-command model (`Errexit/ScDriver.lean`) for cases that start with `sc`. -/
 import YashModel.Common.Proto
 import YashModel.Exec.Driver
-def main : IO Unit := YashModel.Proto.mainLoop YashModel.Exec.runLine
+import YashModel.Errexit.ScDriver
+def runLineC10 (line : String) : String :=
+  if line.startsWith "sc " then YashModel.Errexit.runSc line else YashModel.Exec.runLine line
+def main : IO Unit := YashModel.Proto.mainLoop runLineC10
